@@ -19,6 +19,11 @@ use vstd::prelude::*;
 use vstd::std_specs::cmp::PartialEqSpecImpl;
 use std::collections::VecDeque;
 verus! {
+/// any re-ordering of the index other than the code's `reverse()` (`sort_by(..)`, `sort()`, ..): a permutation about which
+/// nothing else is known -- present so that such an edit is judged
+#[verifier::external_body]
+fn sort_index_somehow(v: &mut Vec<(u64, Name)>) ensures final(v)@.len() == old(v)@.len() { unimplemented!() }
+
 
 // ---------------- repository types (error enums), generics / derive attributes shimmed ----------------
 pub enum ProcessDataError {
